@@ -8,6 +8,7 @@ from . import build as BUILD
 ROOT = os.path.dirname(os.path.dirname(os.path.abspath(__file__)))
 REPO = os.environ.get("CTPG_REPO", "/repo")
 
+VERBOSE_RUNS = False      # set by run() for C16: the lite programs also parse every input with verbose output
 PRELUDE = r'''
 #include <ctpg/ctpg.hpp>
 #include <cstdint>
@@ -61,6 +62,11 @@ template<class P, class B> void rt(const char* tag, const P& p, parse_options o,
   try { auto r = p.parse(o, b, os);
   std::printf(" %s=%d:%llu:%s p%s=%llu", tag, r.has_value() ? 1 : 0, (unsigned long long)(r.has_value() ? r.value() : 0), hex(os.str()).c_str(), tag, (unsigned long long)pos_digest()); }
   catch (const std::exception& e) { std::printf(" %s=EXC:0:%s", tag, hex(e.what()).c_str()); } }
+template<class P, class B> void rt_verbose(const char* tag, const P& p, parse_options o, const B& b) {
+  std::ostringstream os;
+  try { auto r = p.parse(o.set_verbose(true), b, os);
+  std::printf(" v%s=%d:%llu:%s", tag, r.has_value() ? 1 : 0, (unsigned long long)(r.has_value() ? r.value() : 0), hex(os.str()).c_str()); }
+  catch (const std::exception& e) { std::printf(" v%s=EXC:0:%s", tag, hex(e.what()).c_str()); } }
 template<class Fn> void big_stack(Fn fn) { pthread_attr_t at; pthread_attr_init(&at); pthread_attr_setstacksize(&at, size_t(1) << 29); pthread_t th;
   auto tr = [](void* q) -> void* { (*static_cast<Fn*>(q))(); return nullptr; }; pthread_create(&th, &at, tr, &fn); pthread_join(th, nullptr); }
 }
@@ -231,7 +237,7 @@ def render_grammar(gi, case, with_cases=True, lite=False, ctxmix=False, customle
             lit = cstr(bytes.fromhex(inp["hex"]))
             n = len(bytes.fromhex(inp["hex"]))
             opts = "parse_options{}.set_skip_whitespace(%s).set_skip_newline(%s)" % ("true" if inp["ws"] else "false", "true" if inp["nl"] else "false")
-            out.append('  { std::printf("CASE %s %d ce=9:0"); parse_options o = %s; static const char lit[] = %s; hh::rt("sb", p, o, string_buffer(std::string(lit, %d))); hh::rt("sv", p, o, string_view_buffer(std::string_view(lit, %d))); { static const std::string big = std::string(lit, %d) + " \\n\\t  ;;zz"; hh::rt("svs", p, o, string_view_buffer(std::string_view(big.data(), %d))); } std::printf("\\n"); }' % (ns, k, opts, lit, n, n, n, n))
+            out.append('  { std::printf("CASE %s %d ce=9:0"); parse_options o = %s; static const char lit[] = %s; hh::rt("sb", p, o, string_buffer(std::string(lit, %d))); hh::rt("sv", p, o, string_view_buffer(std::string_view(lit, %d))); { static const std::string big = std::string(lit, %d) + " \\n\\t  ;;zz"; hh::rt("svs", p, o, string_view_buffer(std::string_view(big.data(), %d))); }%s std::printf("\\n"); }' % (ns, k, opts, lit, n, n, n, n, (' hh::rt_verbose("sv", p, o, string_view_buffer(std::string_view(lit, %d))); hh::rt_verbose("sb", p, o, string_buffer(std::string(lit, %d)));' % (n, n)) if VERBOSE_RUNS else ""))
         out.append('  { std::ostringstream dg; p.write_diag_str(dg); std::printf("DIAG %s %%s\\n", hh::hex(dg.str()).c_str()); }' % ns)
         out.append("}")
     elif with_cases:
@@ -314,6 +320,40 @@ def check_diag_text(text, case):
         return "diagnostic text shows %d CONFLICT line(s) for a grammar without LR(1) conflicts" % nconf
     if case.get("has_sr", False) and nconf == 0:
         return "diagnostic text shows no CONFLICT line for a grammar with shift/reduce conflicts"
+    return None
+
+
+def check_verbose(d, tag, a, v, m, inp, cxx):
+    """C16 through the DSL: the verbose parse of the same text through the same buffer kind: same outcome, the quiet messages kept in order, and the
+    'Recognized <name>' lines are the display names of the terms the reference tokenisation delivers (parses without recovery), one 'Shift' per consumed term"""
+    vv = d.get("v" + tag)
+    if vv is None:
+        return "no verbose result for %s (%s)" % (tag, cxx)
+    va, vval, vhex = vv.split(":")
+    if va == "EXC":
+        return "the verbose parse threw (%s, %s)" % (tag, cxx)
+    if va != a or vval != v:
+        return "result depends on verbosity (%s, %s)" % (tag, cxx)
+    vtext = bytes.fromhex(vhex).decode("latin-1")
+    quiet = bytes.fromhex(m).decode("latin-1")
+    pos = 0
+    for ln in [x for x in quiet.split("\n") if x]:
+        k = vtext.find(ln + "\n", pos)
+        if k < 0:
+            return "a non-verbose message is missing from (or altered in) the verbose output (%s, %s)" % (tag, cxx)
+        pos = k + len(ln) + 1
+    if "recognized_hex" in inp:
+        import re
+        want = [x for x in bytes.fromhex(inp["recognized_hex"]).decode("latin-1").split("\x1f") if x != ""]
+        # a display name may contain a line break (string term ";\\n"): take everything between 'PARSE: Recognized ' and the next '[l:c] ' prefix
+        got = [g.rstrip(" \n") if g.rstrip(" \n") else g for g in re.findall(r"\] PARSE: Recognized (.*?) ?\n(?=\[\d+:\d+\] |$)", vtext, flags=re.S)]
+        # at the end of the input the parser asks for the current term again after every reduction: '<eof>' may be reported several times in a row
+        got = [x for i, x in enumerate(got) if not (x == "<eof>" and i > 0 and got[i - 1] == "<eof>")]
+        if got != want:
+            return "verbose trace is not truthful: recognised terms %r, the input's terms are %r (%s, %s)" % (got[:12], want[:12], tag, cxx)
+        nshift = len(re.findall(r"\] PARSE: Shift to \d+, term: ", vtext))
+        if nshift != inp.get("shifted", nshift):
+            return "verbose trace is not truthful: %d shift lines, %d terms were consumed (%s, %s)" % (nshift, inp["shifted"], tag, cxx)
     return None
 
 # ---- C07 (second program kind): results that KEEP views into the caller's buffer ----------------------------------------
@@ -614,10 +654,10 @@ def run(pid, tier, seed, work, viol_dir, known_ids=()):
         cases = json.load(open(outp))["cases"]
         log = ""
     ncases = {"C03": {"quick": 16, "thorough": 160}, "C07": {"quick": 24, "thorough": 240}, "C17": {"quick": 8, "thorough": 60}, "C13": {"quick": 16, "thorough": 160},
-              "C01": {"quick": 16, "thorough": 160}, "C02": {"quick": 16, "thorough": 160}, "C05": {"quick": 16, "thorough": 160}, "C09": {"quick": 16, "thorough": 160}, "C18": {"quick": 12, "thorough": 120}, "C10": {"quick": 12, "thorough": 120}, "C11": {"quick": 12, "thorough": 120}}[pid][tier]
+              "C01": {"quick": 16, "thorough": 160}, "C02": {"quick": 16, "thorough": 160}, "C05": {"quick": 16, "thorough": 160}, "C09": {"quick": 16, "thorough": 160}, "C18": {"quick": 12, "thorough": 120}, "C10": {"quick": 12, "thorough": 120}, "C11": {"quick": 12, "thorough": 120}, "C16": {"quick": 12, "thorough": 120}}[pid][tier]
     os.environ["_EMIT_PID"] = pid
     if pid != "C03":
-      cases, log = emit_cases((seed + {"C01": 101, "C02": 202, "C05": 505, "C09": 909, "C18": 1818, "C10": 1010, "C11": 1111}.get(pid, 0)) % 0x7FFFFFFF or 1, ncases, work, spelling=(pid in ("C07", "C01", "C02", "C05", "C09", "C18", "C10", "C11")), only_class=(1 if pid == "C05" else None), named_terms=(pid == "C09"), always_spelled=(pid in ("C18", "C10", "C11")))
+      cases, log = emit_cases((seed + {"C01": 101, "C02": 202, "C05": 505, "C09": 909, "C18": 1818, "C10": 1010, "C11": 1111, "C16": 1616}.get(pid, 0)) % 0x7FFFFFFF or 1, ncases, work, spelling=(pid in ("C07", "C01", "C02", "C05", "C09", "C18", "C10", "C11", "C16")), only_class=(1 if pid == "C05" else None), named_terms=(pid == "C09"), always_spelled=(pid in ("C18", "C10", "C11", "C16")))
     if cases is None:
         print("HARNESS-BUILD-FAILED engine=e_grammar (emit)")
         print(log)
@@ -632,7 +672,9 @@ def run(pid, tier, seed, work, viol_dir, known_ids=()):
     def lab(k, n=1):
         labels[k] = labels.get(k, 0) + n
 
-    lite = pid in ("C01", "C02", "C05", "C09", "C18", "C10", "C11")
+    lite = pid in ("C01", "C02", "C05", "C09", "C18", "C10", "C11", "C16")
+    global VERBOSE_RUNS
+    VERBOSE_RUNS = pid == "C16"
     ctxmix = pid == "C05"
     customlex = pid == "C18"
     if pid == "C07" or lite:
@@ -689,6 +731,8 @@ def run(pid, tier, seed, work, viol_dir, known_ids=()):
                                 what = "expression grouped against the documented precedence/associativity rules in a parser written in the DSL (%s, %s)" % (tag, cxx)
                             elif pid == "C09" and m != want_msg:
                                 what = "error report differs from the reference (%s, %s)" % (tag, cxx)
+                            elif pid == "C16" and tag in ("sb", "sv"):
+                                what = check_verbose(d, tag, a, v, m, inp, cxx)
                             elif pid == "C10" and m != want_msg:
                                 what = "a position in an error message is not the true line/column (%s, %s)" % (tag, cxx)
                             elif pid == "C10" and d.get("p" + tag) != inp.get("posdigest"):
@@ -1013,6 +1057,9 @@ def replay(path):
             if d.get("lite"):
                 for tag in ("sb", "sv", "svs"):
                     a, v, m = g[tag].split(":") if g else ("EXC", "0", "")
+                    if d["check"] == "C16" and g and tag in ("sb", "sv") and check_verbose(g, tag, a, v, m, inp, d["compiler"]):
+                        bad += 1
+                        break
                     if a == "EXC" or int(a) != want_acc or (d["check"] in ("C02", "C05") and want_acc and v != want_val) or (d["check"] in ("C09", "C10") and m != inp["messages_hex"]) or (d["check"] == "C10" and g.get("p" + tag) != inp.get("posdigest")) or (d["check"] == "C18" and ((want_acc and v != want_val) or m != inp["messages_hex"])):
                         bad += 1
                         break
